@@ -31,11 +31,19 @@ META = {
 }
 
 SERVERS = ['A', 'B']
+
+
+def shaped(names, shape):
+    """the stream list of a request as MC_Groups.tla ListOf builds it: every name once (sorted); 'dup': the first name
+    repeated at the end; 'empty': an empty stream name appended"""
+    q = sorted(names)
+    return q + [q[0]] if shape == 'dup' else q + [''] if shape == 'empty' else q
+
 LABELS = {
     'MCCreateStream': lambda a: {'a': 'CreateStream', 's': a[0], 'n': a[1]},
     'MCDeleteStream': lambda a: {'a': 'DeleteStream', 's': a[0]},
-    'MCCreateGroup': lambda a: {'a': 'CreateGroup', 'c': a[0], 'streams': sorted(a[1]['__set__']), 'coord': a[2]},
-    'MCJoin': lambda a: {'a': 'Join', 'c': a[0], 'streams': sorted(a[1]['__set__'])},
+    'MCCreateGroup': lambda a: {'a': 'CreateGroup', 'c': a[0], 'streams': shaped(a[1]['__set__'], a[3]), 'coord': a[2]},
+    'MCJoin': lambda a: {'a': 'Join', 'c': a[0], 'streams': shaped(a[1]['__set__'], a[2])},
     'MCLeave': lambda a: {'a': 'Leave', 'c': a[0], 'how': a[1]},
     'MCChangeCoordinator': lambda a: {'a': 'ChangeCoordinator', 'coord': a[0]},
     'MCRestore': lambda a: {'a': 'Restore', 'srv': a[0]},
@@ -97,7 +105,9 @@ def feats(b):
         q = a
         if a in ('Join', 'CreateGroup'):
             miss = [x for x in s['streams'] if not parts.get(x)]
-            q += ':missing' if miss else (':multi' if len(s['streams']) > 1 else '')
+            q += ':missing' if miss else (':multi' if len(set(s['streams'])) > 1 else '')
+            q += ':dup' if len(set(s['streams'])) < len(s['streams']) else ''
+            q += ':emptyname' if '' in s['streams'] else ''
             named_missing.update(miss)
             if a == 'CreateGroup' and not miss:
                 group = True
